@@ -7,7 +7,10 @@ def svd_kernel(mat, assume_full_rank=False, matching_rank=True,
     if assume_full_rank and not matching_rank:
         raise ValueError("matching_rank must be True if assume_full_rank is True")
 
-    _, s, v = np.linalg.svd(mat)
+    _, s, vh = np.linalg.svd(mat)
+
+    # svd returns V^H: its last rows are conjugates of the kernel vectors
+    v = np.conjugate(vh)
 
     min_kernel_dim = max(mat.shape[-1] - mat.shape[-2], 0)
 
